@@ -341,6 +341,10 @@ def canon_schedules():
         k.relay("Recv", "B", dict(bad, seq=len(pk) + 1), ph)  # forged packet
         for p in pk:
             if p["data"][0].startswith("async"):
+                if p["proto"] != "v1":
+                    # a rejected asynchronous write, called as a module would (no transaction rollback around it):
+                    # the packet must stay acknowledgeable afterwards
+                    k._act("WriteAckV2", "B", pkt=p, ack=["ok", "ok"], direct=True)
                 k._act("WriteAck" + ("V1" if p["proto"] == "v1" else "V2"), "B", pkt=p, ack=["ok"])
                 k._act("WriteAck" + ("V1" if p["proto"] == "v1" else "V2"), "B", pkt=p, ack=["ok"])   # second write must fail
         ph = k.sync("A")
@@ -395,6 +399,8 @@ def canon_schedules():
         k._act("Update", "B", p=ph)                        # updates through a frozen client fail
         k.s["acts"].append({"a": "Block", "c": "A", "dt": SMALL_TP + 2}); k.h["A"] += 1   # A's client of B expires
         k.send("A", proto, ["ok"], toT=600)                # send through an expired client: must fail
+        if kind == "UNORDERED":
+            k.send("A", "v2", ["ok"], toT=600)             # the same over the channel's v2 alias
         k._act("Update", "A", p=k.h["B"])                  # an expired client cannot be updated
         out.append(k.s)
     return out
